@@ -505,6 +505,85 @@ def mech_config(chk, rng):
                               {"kind": "config", **a, "name": n, "expected_sensitive": expected})
 
 
+def mech_config_history(chk, rng):
+    """histories of the public module-level `schemathesis.sanitization.configure` / `extend` calls on the real module
+    state: the final configuration is the model's `runCalls`, and every name registered by some call and not replaced
+    by a later `configure(keys_to_sanitize=…)` / `configure(sensitive_markers=…)` is still redacted by the real
+    `sanitize_value` / `sanitize_url` under the module's current configuration (registered_*_stays_protected)."""
+    public = schemathesis.sanitization
+    drv = chk.driver()
+    pool_k = ["X-Tenant", "customer-id", "Trace", "tenant_ref", "Pwd2"]
+    pool_m = ["tenant", "cust", "zz9"]
+    saved = S._DEFAULT_SANITIZATION_CONFIG
+    runs = []
+    try:
+        for i in range(chk.budget(150, 1500)):
+            S._DEFAULT_SANITIZATION_CONFIG = S.SanitizationConfig()
+            calls = []
+            for _ in range(rng.randint(2, 5)):
+                how = rng.choice(["configure", "extend", "extend"])
+                c = {"how": how}
+                if rng.random() < 0.55:
+                    c["keys"] = [rng.choice(pool_k) for _ in range(rng.randrange(0, 3))]
+                if rng.random() < 0.35:
+                    c["markers"] = [rng.choice(pool_m) for _ in range(rng.randrange(1, 3))]
+                if how == "configure" and rng.random() < 0.6:
+                    c["replacement"] = rng.choice(["[REDACTED]", "#", "***"])
+                kw = {}
+                if "keys" in c:
+                    kw["keys_to_sanitize"] = list(c["keys"])
+                if "markers" in c:
+                    kw["sensitive_markers"] = list(c["markers"])
+                if "replacement" in c:
+                    kw["replacement"] = c["replacement"]
+                (public.configure if how == "configure" else public.extend)(**kw)
+                calls.append(c)
+            final = S._DEFAULT_SANITIZATION_CONFIG
+            # what the module-level default does now (no explicit config): value and URL routes
+            probes = {}
+            for n in pool_k + ["X-" + m.upper() + "-id" for m in pool_m] + ["authorization", "X-Plain"]:
+                d = {n: "\x01secret"}
+                S.sanitize_value(d)
+                url = S.sanitize_url(f"http://h/p?{n}=s3cr3tvalue")
+                probes[n] = (d[n] != "\x01secret", "s3cr3tvalue" not in url)
+            runs.append((calls, cfg_wire(final), probes))
+    finally:
+        S._DEFAULT_SANITIZATION_CONFIG = saved
+    base = cfg_wire(S.SanitizationConfig())
+    outs = drv.batch([("config_history", {"base": base, "calls": calls}) for calls, _, _ in runs])
+    for (calls, got, probes), m in zip(runs, outs):
+        if "__err__" in m:
+            raise InfraError(f"driver: {m}")
+        model = {"keys": sorted(set(m["keys"])), "markers": sorted(set(m["markers"])), "replacement": m["replacement"]}
+        chk.case("config-history", key=calls, nontrivial=len(calls) > 1, sample={"calls": calls, "final": got})
+        chk.feature(f"config-history:len={len(calls)}")
+        chk.feature("config-history:" + ">".join(c["how"][0] for c in calls)[:9])
+        if got != model:
+            chk.disagreement("config-history", {"calls": calls}, model, got)
+        # ---- replay (hypotheses of registered_key_stays_protected / registered_marker_stays_protected, stated here)
+        for i, c in enumerate(calls):
+            later = calls[i + 1:]
+            if not any(d["how"] == "configure" and "keys" in d for d in later):
+                for k in c.get("keys", []):
+                    if probes[k] != (True, True):
+                        chk.violation("C15:configure/extend:registered-key-no-longer-redacted-after-later-calls",
+                                      f"{k!r} was registered by call {i} ({c}) and no later configure() gives a new key list, "
+                                      f"but after {later} sanitize_value/sanitize_url (module default) redact it: {probes[k]}",
+                                      {"kind": "config-history", "calls": calls, "name": k})
+            if not any(d["how"] == "configure" and "markers" in d for d in later):
+                for mk in c.get("markers", []):
+                    n = "X-" + mk.upper() + "-id"
+                    if probes[n] != (True, True):
+                        chk.violation("C15:configure/extend:registered-marker-no-longer-redacted-after-later-calls",
+                                      f"marker {mk!r} was registered by call {i} ({c}) and no later configure() gives a new "
+                                      f"marker list, but after {later} the name {n!r} is not redacted: {probes[n]}",
+                                      {"kind": "config-history", "calls": calls, "name": n})
+        # the defaults survive as long as no configure() replaces the lists
+        if not any(d["how"] == "configure" and ("keys" in d) for d in calls) and probes["authorization"] != (True, True):
+            chk.violation("C15:configure/extend:default-key-lost", f"after {calls} `authorization` is no longer redacted",
+                          {"kind": "config-history", "calls": calls, "name": "authorization"})
+
+
 # ---- mechanism 5: prepare_request / as_curl_command ------------------------------------------------------------------
 
 def build_schema(base_url):
@@ -1302,6 +1381,7 @@ def run(chk):
     mech_defaults(chk)
     mech_keys(chk, rng, configs)
     mech_config(chk, rng)
+    mech_config_history(chk, rng)
     mech_value(chk, rng, configs)
     mech_url(chk, rng, configs)
     mech_prepare(chk, rng, configs, chk.variants["prepare_request"])
